@@ -7,6 +7,7 @@ import (
 	"fmt"
 	"os"
 	"sort"
+	"strings"
 	"testing"
 	"time"
 
@@ -231,8 +232,17 @@ func runWorker(t *testing.T) {
 func handleFailure(t *testing.T, p *Prop, sc any, o *Outcome, seed uint64, dir string) violationOut {
 	orig, _ := json.Marshal(sc)
 	best := cloneScenario(p, sc)
-	bestOut := p.Exec(t, cloneScenario(p, best), false)
 	v := violationOut{Oracle: o.Fail.Oracle, Msg: o.Fail.Msg, Sig: o.Fail.Sig, Seed: seed, ShrunkFrom: len(orig)}
+	if strings.HasSuffix(o.Fail.Oracle, ".race") {
+		// The race detector reports a given race once per process, so a race cannot be confirmed or
+		// minimised by re-executing here: the replay file is written as is and the driver confirms it
+		// in a fresh process before anything is reported.
+		b, _ := json.MarshalIndent(best, "", " ")
+		v.Scenario = b
+		writeReplay(p, &v, seed, o.LogHash, dir)
+		return v
+	}
+	bestOut := p.Exec(t, cloneScenario(p, best), false)
 	if bestOut.Fail == nil || bestOut.Fail.Oracle != o.Fail.Oracle {
 		// not reproducible in-process: a harness determinism defect, reported as such by the driver
 		v.Oracle = "HARNESS-NONDETERMINISM:" + o.Fail.Oracle
@@ -265,9 +275,14 @@ func handleFailure(t *testing.T, p *Prop, sc any, o *Outcome, seed uint64, dir s
 	v.Sig = bestOut.Fail.Sig
 	b, _ := json.MarshalIndent(best, "", " ")
 	v.Scenario = b
-	rf := replayFile{Property: p.ID, Oracle: v.Oracle, Sig: v.Sig, Msg: v.Msg, Seed: seed, LogHash: fmt.Sprintf("%016x", bestOut.LogHash), Scenario: b}
+	writeReplay(p, &v, seed, bestOut.LogHash, dir)
+	return v
+}
+
+func writeReplay(p *Prop, v *violationOut, seed uint64, logHash uint64, dir string) {
+	rf := replayFile{Property: p.ID, Oracle: v.Oracle, Sig: v.Sig, Msg: v.Msg, Seed: seed, LogHash: fmt.Sprintf("%016x", logHash), Scenario: v.Scenario}
 	h := kit.NewHash64()
-	h.Write(b)
+	h.Write(v.Scenario)
 	if dir != "" {
 		os.MkdirAll(dir, 0o755)
 		path := fmt.Sprintf("%s/%s-%d-%08x.json", dir, p.ID, seed, uint32(h.Sum()))
@@ -276,7 +291,6 @@ func handleFailure(t *testing.T, p *Prop, sc any, o *Outcome, seed uint64, dir s
 			v.Replay = path
 		}
 	}
-	return v
 }
 
 func replay(t *testing.T, p *Prop, path string) {
@@ -296,6 +310,15 @@ func replay(t *testing.T, p *Prop, path string) {
 		os.Exit(2)
 	}
 	o := p.Exec(t, sc, os.Getenv("VERIF_VERBOSE") != "")
+	if strings.HasSuffix(rf.Oracle, ".race") {
+		// A race report depends on which of the schedules admitted by the coarse (simulated-time)
+		// schedule the OS threads take: repeat the scenario until the detector reports the pair again.
+		for i := 0; i < 40 && (o.Fail == nil || o.Fail.Oracle != rf.Oracle); i++ {
+			sc2 := p.New()
+			json.Unmarshal(rf.Scenario, sc2)
+			o = p.Exec(t, sc2, false)
+		}
+	}
 	for _, l := range o.LogLines {
 		fmt.Println("LOG", l)
 	}
